@@ -290,7 +290,7 @@ def checkPure (c : Cfg) (s : RState) : Option Msg :=
   if hdr + B (hdr - 1) ≠ s.pos - 1 then none else
   some ⟨B 2, B 3 + 256 * B 4 + 65536 * B 5, B 6,
         if B 0 = 0x93 then B 7 else c.defaultSource,
-        if B 0 = 0x93 then B 8 + 256 * B 9 + 65536 * B 10 + 16777216 * B 11 else c.now,
+        if B 0 = 0x93 then (if c.stampLocal = false then B 8 + 256 * B 9 + 65536 * B 10 + 16777216 * B 11 else c.now) else c.now,
         B (hdr - 1), (s.buf.drop hdr).take (B (hdr - 1))⟩
 
 theorem checkMessage_ok (c : Cfg) {s : RState} (hl : s.buf.length = 300) (hp : s.pos ≤ 300) :
@@ -350,7 +350,7 @@ theorem rdChecksum_eq {sum : Int} {T : Nat} (h : sum % 256 = (T : Int) % 256) :
 unescaped bytes received since the start sequence -/
 theorem checkPure_eq (c : Cfg) {s : RState} (h : RInv s)
     (ht : s.buf.getD 0 0 = 0x93 ∨ s.buf.getD 0 0 = 0x94) :
-    checkPure c s = decodeBody c.defaultSource c.now (s.buf.take s.pos) := by
+    checkPure c s = decodeBody c.defaultSource c.now c.stampLocal (s.buf.take s.pos) := by
   have hl := h.len
   have hp := h.pos
   have hlen : (s.buf.take s.pos).length = s.pos := by rw [List.length_take]; omega
@@ -403,7 +403,7 @@ theorem checkPure_eq (c : Cfg) {s : RState} (h : RInv s)
     have hpos : s.pos = 13 + s.buf.getD 12 0 + 1 := by omega
     have hlt : 12 < s.pos := by omega
     simp only [hlt, if_true]
-    rw [if_pos ⟨Or.inl trivial, h1', h2', by omega, hpos⟩]
+    rw [if_pos (c := (_ ∨ _) ∧ _ ∧ _ ∧ _ ∧ _) ⟨Or.inl trivial, h1', h2', by omega, hpos⟩]
     have e : ∀ i, i < 13 → (s.buf.take s.pos).getD i 0 = s.buf.getD i 0 := by
       intro i hi; rw [getD_take, if_pos (by omega)]
     simp only [e 2 (by omega), e 3 (by omega), e 4 (by omega), e 5 (by omega), e 6 (by omega), e 7 (by omega), e 8 (by omega), e 9 (by omega), e 10 (by omega), e 11 (by omega), e 12 (by omega)]
@@ -432,7 +432,7 @@ theorem checkPure_eq (c : Cfg) {s : RState} (h : RInv s)
     have hpos : s.pos = 8 + s.buf.getD 7 0 + 1 := by omega
     have hlt : 7 < s.pos := by omega
     simp only [hlt, if_true]
-    rw [if_pos ⟨Or.inr trivial, h1', h2', by omega, hpos⟩]
+    rw [if_pos (c := (_ ∨ _) ∧ _ ∧ _ ∧ _ ∧ _) ⟨Or.inr trivial, h1', h2', by omega, hpos⟩]
     have e : ∀ i, i < 8 → (s.buf.take s.pos).getD i 0 = s.buf.getD i 0 := by
       intro i hi; rw [getD_take, if_pos (by omega)]
     simp only [e 2 (by omega), e 3 (by omega), e 4 (by omega), e 5 (by omega), e 6 (by omega), e 7 (by omega)]
@@ -454,7 +454,7 @@ message is the specification's decoding of the buffered body, an unread byte end
 theorem step_total (c : Cfg) (ro : Bool) {s : RState} (b : Nat) (h : RInv s) :
     ∃ s' k r, readerStep c ro s b = .ok (s', k, r) ∧ RInv s' ∧
       (∀ m, r = some m → s.coming = true ∧ s.esc = true ∧ b = 0x03 ∧
-        decodeBody c.defaultSource c.now (s.buf.take s.pos) = some m) ∧
+        decodeBody c.defaultSource c.now c.stampLocal (s.buf.take s.pos) = some m) ∧
       (k = false → handling s' = false ∧ ro = false) ∧ (b ≠ 0x10 → s'.esc = false) := by
   unfold readerStep
   by_cases hc : s.coming = true
@@ -710,7 +710,7 @@ theorem feed_start (c : Cfg) {s : RState} (b : Nat) (h : RInv s) (he : s.coming 
 /-- the end sequence: the buffered body is decoded, the reader becomes idle -/
 theorem feed_end (c : Cfg) {s : RState} {body : List Nat} (h : InFrame s body)
     (ht : body.getD 0 0 = 0x93 ∨ body.getD 0 0 = 0x94) (hb : 0 < body.length) :
-    ∃ s', feed c s [0x10, 0x03] = .ok (s', (decodeBody c.defaultSource c.now body).toList) ∧ Idle s' := by
+    ∃ s', feed c s [0x10, 0x03] = .ok (s', (decodeBody c.defaultSource c.now c.stampLocal body).toList) ∧ Idle s' := by
   have hne : ¬ s.esc = true := by simp [h.esc]
   have s1 : readerStep c true s 0x10 = .ok ({ s with esc := true }, true, none) := by
     unfold readerStep; rw [if_pos h.coming, if_neg hne, if_pos rfl]
@@ -718,13 +718,13 @@ theorem feed_end (c : Cfg) {s : RState} {body : List Nat} (h : InFrame s body)
     rw [← h.take, getD_take, if_pos (by rw [h.pos]; exact hb)]
   have hi1 : RInv { s with esc := true } := h.inv.flags _ _ _
   have s2 : readerStep c true { s with esc := true } 0x03 =
-      .ok (clearBuffer { s with esc := true }, true, decodeBody c.defaultSource c.now body) := by
+      .ok (clearBuffer { s with esc := true }, true, decodeBody c.defaultSource c.now c.stampLocal body) := by
     unfold readerStep
     rw [if_pos h.coming, if_pos rfl, if_neg (by decide), if_pos rfl, bufGet_ok (by show 0 < s.buf.length; rw [h.inv.len]; omega)]
     simp only []
     rw [if_pos (by show s.buf.getD 0 0 = 0x93 ∨ s.buf.getD 0 0 = 0x94; rw [h0]; exact ht),
       checkMessage_ok c hi1.len hi1.pos, checkPure_eq c hi1 (by show s.buf.getD 0 0 = 0x93 ∨ s.buf.getD 0 0 = 0x94; rw [h0]; exact ht)]
-    show _ = Except.ok (_, true, decodeBody c.defaultSource c.now body)
+    show _ = Except.ok (_, true, decodeBody c.defaultSource c.now c.stampLocal body)
     rw [← h.take]
   exact ⟨_, by simp [feed, s1, s2], ⟨hi1.clear, rfl, rfl, rfl, rfl⟩⟩
 
@@ -736,8 +736,8 @@ theorem getD_append_length (l : List Nat) (x d : Nat) : (l ++ [x]).getD l.length
   | nil => rfl
   | cons a t ih => simp [ih]
 
-theorem decode_bodyOf (ds now : Nat) {m : Msg} (hv : Valid m) :
-    decodeBody ds now (bodyOf m ++ [checksum (bodyOf m)]) = some (received m) := by
+theorem decode_bodyOf (c : Cfg) {m : Msg} (hv : Valid m) :
+    decodeBody c.defaultSource c.now c.stampLocal (bodyOf m ++ [checksum (bodyOf m)]) = some (received c m) := by
   obtain ⟨prio, pgn, dst, src, time, len, data⟩ := m
   obtain ⟨h1, h2, h3, h4, h5, h6, h7, h8, h9⟩ := hv
   simp only at h1 h2 h3 h4 h5 h6 h7 h8 h9
@@ -762,9 +762,12 @@ theorem decode_bodyOf (ds now : Nat) {m : Msg} (hv : Valid m) :
     show (13 : Nat) - 1 = 12 from rfl]
   have e1 : (len + 11) % 256 = len + 11 := by omega
   have e2 : len % 256 = len := by omega
-  rw [if_pos ⟨Or.inl trivial, by omega, trivial, by omega, by omega⟩]
+  rw [if_pos (c := (_ ∨ _) ∧ _ ∧ _ ∧ _ ∧ _) ⟨Or.inl trivial, by omega, trivial, by omega, by omega⟩]
   simp only [received, Option.some.injEq, Msg.mk.injEq]
-  refine ⟨by omega, by omega, by omega, by omega, by omega, e2, ?_⟩
+  refine ⟨by omega, by omega, by omega, by omega, ?_, e2, ?_⟩
+  · by_cases hl : c.stampLocal = false
+    · simp only [hl, if_true]; omega
+    · rw [if_neg hl, if_neg hl]
   show List.take (len % 256) (List.drop 13 (_ :: _)) = data
   rw [e2]; simp only [List.drop_succ_cons, List.drop_zero]
   rw [← h5]; simp
@@ -774,7 +777,7 @@ theorem decode_bodyOf (ds now : Nat) {m : Msg} (hv : Valid m) :
 content, any write position): exactly that message is reported and the reader is idle afterwards -/
 theorem frame_fed (c : Cfg) {s : RState} {m : Msg} (h : RInv s) (he : s.coming = false ∨ s.esc = false)
     (hv : Valid m) :
-    ∃ s', feed c s (frame (bodyOf m)) = .ok (s', [received m]) ∧ Idle s' := by
+    ∃ s', feed c s (frame (bodyOf m)) = .ok (s', [received c m]) ∧ Idle s' := by
   obtain ⟨rest, hrest, hrl⟩ : ∃ rest, bodyOf m = 0x93 :: rest ∧ rest.length = 12 + m.len :=
     ⟨_, rfl, by simp [hv.data_len]; omega⟩
   have hle := hv.len_le
@@ -794,7 +797,7 @@ theorem frame_fed (c : Cfg) {s : RState} {m : Msg} (h : RInv s) (he : s.coming =
   simp only []
   rw [hf4]
   have : [0x93] ++ rest ++ [checksum (bodyOf m)] = bodyOf m ++ [checksum (bodyOf m)] := by rw [hrest]; rfl
-  rw [this, decode_bodyOf _ _ hv]
+  rw [this, decode_bodyOf c hv]
   rfl
 
 /-- no adjacent `<10><02>` -/
@@ -859,7 +862,7 @@ theorem feed_outside (c : Cfg) (g : List Nat) : ∀ {s : RState}, RInv s → s.c
 a valid message yield exactly that message -/
 theorem frame_fed_idle (c : Cfg) {s : RState} {m : Msg} (g : List Nat) (h : RInv s) (hh : handling s = false)
     (hns : noStart g = true) (hv : Valid m) :
-    ∃ s', feed c s (g ++ frame (bodyOf m)) = .ok (s', [received m]) ∧ Idle s' := by
+    ∃ s', feed c s (g ++ frame (bodyOf m)) = .ok (s', [received c m]) ∧ Idle s' := by
   simp only [handling, Bool.or_eq_false_iff] at hh
   obtain ⟨s1, hf1, hi1, hc1, _, _⟩ := feed_outside c g h hh.1.1 hh.2 (by rw [hh.1.2]; simp) hns
   obtain ⟨s2, hf2, hidle⟩ := frame_fed c hi1 (Or.inl hc1) hv
